@@ -175,6 +175,8 @@ CONC_CLAUSES = {
 }
 for _p, _names in CONC_CLAUSES.items():
     PROPS[_p]['streams'] = PROPS[_p]['streams'] + [CONC_STREAM, CONC_STRESS_STREAM]
+    if _p in ('C12', 'C13', 'C14'):   # the regression searches of the repaired findings F1/F1'/F2/F3 are tagged with these ids
+        PROPS[_p]['streams'] = PROPS[_p]['streams'] + [CONC_REGRESS_STREAM]
     PROPS[_p]['generators'] = PROPS[_p].get('generators', []) + [LOCKFACTS_GEN]
     # theorems about every interleaving (M6), stated in GodiProofs/Conc/Clauses.lean, audited with the property
     PROPS[_p]['extra_theorems'] = {'GodiProofs.Conc.Clauses': ['Godi.Conc.' + n for n in _names]}
